@@ -598,9 +598,6 @@ func (gb *gcpBalancer) UpdateSubConnState(sc balancer.SubConn, scs balancer.SubC
 // refresh initiates a new SubConn for a specific subConnRef and starts connecting.
 // If the refresh is already initiated for the ref, then this is a no-op.
 func (gb *gcpBalancer) refresh(ref *subConnRef) {
-	if ref.refreshing {
-		return
-	}
 	gb.mu.Lock()
 	defer gb.mu.Unlock()
 	if ref.refreshing {
